@@ -308,8 +308,12 @@ class Reader:
                         sign = "+"
                     base = "d"
 
-        ioffset = int(offset)
-        iwidth = int(width)
+        try:
+            ioffset = int(offset)
+            iwidth = int(width)
+        except ValueError:
+            # Python refuses to convert digit strings beyond a length limit.
+            raise dns.exception.SyntaxError("bad $GENERATE modifier")
 
         if sign not in ["+", "-"]:
             raise dns.exception.SyntaxError(f"invalid offset sign {sign}")
